@@ -23,15 +23,15 @@ def c2(ctx):
 def c3(ctx):
     records.enum_dispatch(ctx, "simfile.convert:_should_copy_property", "behavior", enum_cls="simfile.convert.InvalidPropertyBehavior")
     convert.policy_dispatch(ctx)
-    fwd.fwd_options(ctx, ["invalid_property_behaviors", "simfile_template", "chart_template"], floor=6,
-                    scope=[f.fq for f in ctx.p.nontest_functions() if f.module.name == "simfile.convert"])
+    fwd.fwd_options(ctx, ["invalid_property_behaviors", "simfile_template", "chart_template"], floor=5,
+                    scope=["simfile.convert:ssc_to_sm", "simfile.convert:_convert", "simfile.convert:_copy_properties"])
 
 
 def c5(ctx):
     convert.global_tables_immutable(ctx)
     convert.purity(ctx)
-    convert.warps_first(ctx)
-    convert.ssc_target_tables(ctx)
+    convert.warps_first(ctx, 'ssc_to_sm')
+    convert.ssc_target_tables(ctx, 'ssc_to_sm')
 
 
 CLAUSES = [
